@@ -164,12 +164,12 @@ Qed.
 (* ---------- Compile + Match = Str_Match ---------- *)
 
 Theorem match_is_strmatch_partial : forall (p : str) (a : pattern) (s : str),
-  N.of_nat (length p) < 65536 -> is_bytes s -> range_to_rbracket p = false ->
+  is_bytes s -> range_to_rbracket p = false ->
   compile p = Ok (Some a) ->
   exists b, matchp a s = Ok b /\ str_match p s = Some b.
 Proof.
-  intros p a s Hlen Hs G Hc.
-  destruct (compile_chain p a Hlen Hc) as (es & P & ->).
+  intros p a s Hs G Hc.
+  destruct (compile_chain p a Hc) as (es & P & ->).
   exists (gmatch es s). split; [apply matchp_chain; exact Hs|].
   unfold str_match. apply (strmatch_gmatch p es P G); [lia|exact Hs].
 Qed.
